@@ -108,6 +108,10 @@ def check_multiclient_cfg(cfg: Optional[MultiClientPortCfg],
     if not matched_release_events:
         raise MultiClientCfgError(f'Release event name "{cfg.release_event_name}" not found')
     found_release_event = matched_release_events[0]
+    if found_release_event.direction != EventDirection.IN or \
+            found_release_event is found_claim_event:
+        raise MultiClientCfgError(f'Release event "{cfg.release_event_name}" must be an in-event '
+                                  f'other than the claim event')
 
     return MultiClientPortCfgFixture(claim_event=found_claim_event,
                                      claim_granting_reply=enum_instance.fqn + enum_value,
